@@ -34,20 +34,44 @@ class Names:
         if table:
             self.table.update(table)
 
-    dstyle = 0          # how gamma writes the declared defaults: 0 = truthy values (7, 'dflt'), 1 = None / falsy values
-    kindname = None
+    dstyle = 0          # how gamma writes the declared defaults: 0 = truthy values (7, 'dflt'), 1 = None / falsy values,
+    kindname = None     # 2 = factories (int, str, list)
+
+    def style(self) -> int:
+        if self.kindname == "kwargs":
+            return 0          # the **kwargs class of the ExtraKwargs programs is written by hand with plain defaults
+        if self.dstyle == 2 and self.kindname in ("namedtuple", "sqlalchemy"):
+            return 0          # no default factories in these kinds
+        return self.dstyle
 
     def default(self, ty: str) -> Any:
         """the declared default of an optional field of logical type ty (spec: DflV)"""
-        if self.dstyle == 0:
+        st = self.style()
+        if st == 0:
             return DEFAULTS[ty]
-        if ty == "int" and self.kindname == "sqlalchemy":
-            return 0          # mapped_column(default=None) means "no default" in SQLAlchemy
-        return {"int": None, "str": "", "any": None}[ty]
+        if st == 1:
+            if self.kindname == "sqlalchemy":
+                return {"int": 0, "str": "", "any": None}[ty]          # mapped_column(default=None) means "no default" in SQLAlchemy
+            return {"int": None, "str": "", "any": None}[ty]
+        return {"int": 0, "str": "", "any": []}[ty] if ty != "any" else []
+
+    def factory(self, ty: str):
+        return {"int": int, "str": str, "any": list}[ty] if self.style() == 2 else None
+
+    def falsy(self, ty: str) -> Any:
+        """a well-typed falsy value that is not the declared default (spec: FalsyV)"""
+        st = self.style()
+        if st == 0:
+            return {"int": 0, "str": "", "any": None}[ty]
+        if st == 1:
+            if self.kindname == "sqlalchemy":
+                return {"int": None, "str": None, "any": []}[ty]
+            return {"int": 0, "str": None, "any": []}[ty]
+        return None
 
     def pytype(self, ty: str, req: bool) -> Any:
-        if self.dstyle == 1 and ty == "int" and not req and self.kindname != "sqlalchemy":
-            return Optional[int]
+        if self.style() != 0 and ty != "any" and not req:
+            return Optional[PYTYPES[ty]]
         return PYTYPES[ty]
 
     def word(self, w: str) -> str:
@@ -95,7 +119,8 @@ def make_dataclass_model(shape, names: Names, ctor_log: Optional[list] = None):
         if f["req"]:
             fields.append((n, PYTYPES[f["ty"]]))
         else:
-            fields.append((n, names.pytype(f["ty"], False), dataclasses.field(default=names.default(f["ty"]))))
+            fac = names.factory(f["ty"])
+            fields.append((n, names.pytype(f["ty"], False), dataclasses.field(default_factory=fac) if fac else dataclasses.field(default=names.default(f["ty"]))))
     ns = {}
     if ctor_log is not None:
         def __post_init__(self):
@@ -234,6 +259,8 @@ def render_data(d: dict, shape, names: Names) -> Any:
             return names.default(shape[d["f"] - 1]["ty"])
         if a == "absent":
             return ABSENT
+        if a == "falsy":
+            return names.falsy(shape[d["f"] - 1]["ty"])
         raise ValueError(a)
     if c == "dict":
         return {names.key(k): render_data(v, shape, names) for k, v in zip(d["ks"], d["vs"])}
@@ -376,7 +403,8 @@ def run_program(case: dict, seed: int, names: Names, out: dict, kind=None) -> No
     kwargs_prog = case["sch"]["extra_in"]["p"] == "kwargs"
     ctor_log: list = []
     sat_log: list = []
-    names.kindname = None
+    in_used: list = []
+    names.kindname = "kwargs" if kwargs_prog and kind is None else None
     if kind is None:
         model_in = make_kwargs_model(shape, names) if kwargs_prog else make_dataclass_model(shape, names, ctor_log)
         model_out = make_dataclass_model(shape, names)
@@ -403,7 +431,7 @@ def run_program(case: dict, seed: int, names: Names, out: dict, kind=None) -> No
         sig = {"what": what, **{k: feats[k] for k in ("aslist", "extra_in", "extra_out", "nested", "list_step")}}
         if kind is not None:
             sig["kind"] = kind.name
-            if TYPE_PRED_USED:
+            if TYPE_PRED_USED or (cat == "C01" and in_used):
                 sig["type_predicate"] = True
         if getattr(names, "table_index", None) is not None:
             sig["names"] = names.table_index
@@ -513,6 +541,7 @@ def run_program(case: dict, seed: int, names: Names, out: dict, kind=None) -> No
                         elif len(flat) != 1 or not any(err_matches((m[0], flat[0][1], flat[0][2]), m) for m in want):
                             add("C06", "disable_error_not_among_all", f"DISABLE: raised {flat}; documented set {sorted(map(str, want))}", **pd)
     # ---------------- dumper side ----------------
+    in_used += TYPE_PRED_USED
     del TYPE_PRED_USED[:]
     try:
         retort_out = Retort(recipe=recipe_for(model_out))
@@ -573,6 +602,22 @@ def run_program(case: dict, seed: int, names: Names, out: dict, kind=None) -> No
                 if got != want or _shape_of(got) != _shape_of(want):
                     add("C03", "dumped_layout_differs", f"{dtname}: dump({obj!r}) = {got!r}; documented {want!r}",
                         {"omit": any(ov["omit"]["o"] for ov in case["ovs"])}, dt=dtname)
+                # ---- C01 on the real library: load(dump(x)) == x wherever the model promises it (same paths both ways, nothing
+                # that the loader forbids is merged in, every field part of the layout) --------------------------------
+                if (dtname in loaders and not kwargs_prog and case["created_in"] and case["paths_in"] == case["paths_out"]
+                        and (case["sch"]["extra_out"]["p"] == "skip" or case["sch"]["extra_in"]["p"] != "forbid")
+                        and all(p for p in case["paths_in"])):
+                    out["runs"] += 1
+                    try:
+                        back = loaders[dtname](got)
+                    except BaseException as e:  # noqa: BLE001
+                        add("C01", "load_of_dump_raises", f"{dtname}: x={obj!r} dump={got!r}; load raised {type(e).__name__}: {str(e)[:150]}", dt=dtname)
+                    else:
+                        diff = [n for n in vals if vals[n] is not MISSING and rd(back, n, None) != vals[n]]
+                        gone = [n for n in vals if vals[n] is MISSING and rd(back, n, MISSING) is not MISSING]
+                        if diff or gone:
+                            add("C01", "round_trip_differs", f"{dtname}: x={obj!r} dump={got!r} load={back!r} (fields {diff + gone})",
+                                {"omit": any(ov["omit"]["o"] for ov in case["ovs"])}, dt=dtname)
                 elif HEAP["on"]:
                     xo = case["sch"]["extra_out"]
                     xtarget = xo["f"] if xo["p"] == "target" else 0
@@ -659,7 +704,7 @@ def _shape_of(x: Any) -> Any:
     return type(x).__name__
 
 
-CATS = ("C03", "C04", "C05", "C06", "C08")
+CATS = ("C01", "C03", "C04", "C05", "C06", "C08")
 
 
 def _min_per_sig(fs: list) -> list:
@@ -694,9 +739,9 @@ def _worker(items) -> dict:
                     names = Names(tables[(h + seed) % len(tables)])
                     names.table_index = (h + seed) % len(tables)
                 try:
+                    names.dstyle = (int(stable_hash([case["shape"], case["ovs"]]), 16) + seed) % 3
                     if kinds is not None:
                         from .kinds import BY_NAME
-                        names.dstyle = (int(stable_hash([case["shape"], case["ovs"]]), 16) + seed) % 2
                         for kn in kinds:
                             why = BY_NAME[kn].supports(case["shape"], case["sch"])
                             if case["sch"]["extra_in"]["p"] == "kwargs":
